@@ -1,9 +1,9 @@
 import Proofs.Small
 import Proofs.Resolve
-/-! C07 — webentity network. Proved so far about the aggregation itself: adding a page link of weight `w`
-    to a row adds exactly `w` to that row's total and keeps one entry per target webentity. That the id
-    carried down by `dfs_with_webentity_iter` is the page's resolution is under construction
-    (Proofs/Shape*). -/
+import Proofs.NetworkRun
+/-! C07 — webentity network, in full (Proofs/Network*.lean): `C07_network` below, for every reachable state,
+    both directions, self-links on and off, both variants. The lemmas about the aggregation itself and
+    about the carried id being the resolution are kept. -/
 namespace Traph.Props
 open Traph State
 
@@ -27,5 +27,34 @@ theorem C07_carried_unique {s : State} {t : T} (h : Shape s t) {b w₁ w₂ : Na
 theorem C07_carried_sound {s : State} {t : T} (h : Shape s t) {b w : Nat} (hm : (b, w) ∈ s.dfsWe) :
     ∃ stems, stems ≠ [] ∧ (stems, b) ∈ t.entries s [] ∧ (s.followLru stems).1 = some b ∧ w = (s.followLru stems).2.we :=
   Traph.C07_carried_sound h hm
+
+/-- THE PROPERTY, for every reachable state (any history of well-formed writes without `clear` from a
+    fresh index, any rules, any configuration), `out` / `auto` arbitrary. `netGet g A B` is `graph[A][B]`
+    (0 for a missing row or entry); `specDir L out auto A B` is, for `out = true`, the number of submitted
+    links `(p, q) ∈ L` with `retrieve_webentity p = A` and `retrieve_webentity q = B` when `A ≠ 0`,
+    `B ≠ 0` and (`auto` or `A ≠ B`), else 0 (`specDir_out`), and for `out = false` the same with the roles
+    of `A` and `B` exchanged (`specDir_in`); `weOf` is `retrieve_webentity` with its error read as 0
+    (`weOf_spec`); `pageCount c A` counts the pages of `pages_iter` with crawled mark `c` resolving to `A`. -/
+theorem C07_network (cfg : Config) (dflt : Rule) (rules : List (Bytes × Rule)) (ops : List Op)
+    (hrules : ∀ ar ∈ rules, lruIter ar.1 ≠ [])
+    (hop : ∀ op ∈ ops, ∀ d rs, op ≠ .clear d rs) (hwf : ∀ op ∈ ops, OpWf op)
+    (hok : NoKeyErr (State.fresh cfg dflt rules []).1 ops)
+    (s : State) (hs : s = (State.fresh cfg dflt rules []).1.run ops) (out auto : Bool) :
+    NetOk (s.network out auto) ∧ NetOk (s.networkSlow out auto) ∧
+    (∀ A B, netGet (s.network out auto) A B = s.specDir (ops.flatMap Op.links) out auto A B) ∧
+    (∀ A B, netGet (s.networkSlow out auto) A B = netGet (s.network out auto) A B) ∧
+    (∀ A B, netGet (s.network false auto) B A = netGet (s.network true auto) A B) ∧
+    (∀ A B, netGet (s.networkSlow false auto) B A = netGet (s.networkSlow true auto) A B) ∧
+    (∀ A B w, (∃ r ∈ s.network out auto, r.src = A ∧ (B, w) ∈ r.targets) ↔
+      0 < w ∧ w = s.specDir (ops.flatMap Op.links) out auto A B) ∧
+    (∀ A B w, (∃ r ∈ s.networkSlow out auto, r.src = A ∧ (B, w) ∈ r.targets) ↔
+      0 < w ∧ w = s.specDir (ops.flatMap Op.links) out auto A B) ∧
+    (∀ A, A ∈ (s.network out auto).map (·.src) ↔ A ≠ 0 ∧ ∃ lc ∈ s.pagesIter, s.weOf lc.1 = A) ∧
+    (∀ A, A ∈ (s.networkSlow out auto).map (·.src) ↔
+      ∃ B, 0 < s.specDir (ops.flatMap Op.links) out auto A B) ∧
+    (∀ r ∈ s.network out auto,
+      r.crawled = s.pageCount true r.src ∧ r.uncrawled = s.pageCount false r.src) ∧
+    (∀ r ∈ s.networkSlow out auto, r.crawled = 0 ∧ r.uncrawled = 0 ∧ r.targets ≠ []) :=
+  Traph.C07_reachable cfg dflt rules ops hrules hop hwf hok s hs out auto
 
 end Traph.Props
